@@ -55,6 +55,9 @@ def run(ctx) -> None:
         for f in sorted((core.VERIF / "corpus" / "C04").glob("*.py")):
             shutil.copy(f, d / ("c04_" + f.name))
             names.append("c04_" + f.name)
+        for f in sorted((core.VERIF / "corpus" / "C10").glob("*.py")):
+            shutil.copy(f, d / ("c10_" + f.name))
+            names.append("c10_" + f.name)
         # idioms of different checks nested inside each other's operands and inside f-strings, calls, comprehensions
         # (the C04 context generator): cross-check interference needs such nestings to show
         from . import c04
